@@ -98,4 +98,80 @@ theorem split_merge_inverse (os : List Opt) (ov : Bytes) (hs : os.Pairwise (fun 
   rw [hin]
   exact merge_filter_sorted (fun n => classUOnly n && decide (n ≠ 9)) os hs
 
+theorem oscoreValue_withOscore (outer : List Opt) (ov : Bytes) (h : ∀ o ∈ outer, o.1 ≠ optOscore) :
+    oscoreValue (withOscore outer ov) = some ov := by
+  unfold oscoreValue withOscore
+  have h1 : (outer.filter fun o => decide (o.1 ≤ optOscore)).find? (fun o => decide (o.1 = optOscore)) = none := by
+    rw [List.find?_eq_none]; intro x hx; have := h x (List.mem_filter.mp hx).1; simpa using this
+  simp [List.find?_append, h1]
+
+theorem outerOpts_no_oscore (os : List Opt) : ∀ o ∈ outerOpts os, o.1 ≠ optOscore := by
+  intro o ho
+  have := (List.mem_filter.mp ho).2
+  simp at this
+  exact this.2
+
+theorem aeadOpen_aeadSeal (cipher : Bytes → Bytes → Bytes) (k n a p : Bytes) :
+    aeadOpen cipher k n a (aeadSeal cipher k n a p) = some p := ccm_roundtrip _ _ _ _ _
+
+theorem aeadSeal_ne_nil (cipher : Bytes → Bytes → Bytes) (k n a p : Bytes) : aeadSeal cipher k n a p ≠ [] := by
+  intro h
+  have := congrArg List.length h
+  simp [aeadSeal, ccmEncrypt, xorKs_length, ccmTag_length] at this
+
+
+/-- Matching contexts: the recipient's view of the sender (§3.1) -/
+def Matching (cS cR : Ctx) : Prop :=
+  cR.rid = cS.sid ∧ cR.recipientKey = cS.senderKey ∧ cR.commonIV = cS.commonIV ∧ cR.idctx = cS.idctx ∧ cR.alg = cS.alg
+
+/-- `unprotect ctxR (protect ctxS m) = ok m` for requests and matching contexts, for every block cipher,
+message, Partial IV and context — from `ccm_roundtrip`, `option_value_roundtrip` and
+`split_merge_inverse`.  PARTIAL in two respects: (1) the round-trip of the RFC 7252 option codec on
+the inner message (`hplain`) is a hypothesis here (it is C01's wire round-trip theorem; the inner
+plaintext is an ordinary option list + payload), (2) responses (`protectResponse` /
+`unprotectResponse`, where the result is `normalize false piv m`, D14.3) are covered by the
+differential runs only.  Full statement:
+  ∀ cipher cS cR m seq, Matching cS cR → sorted m.opts → no OSCORE option → seq ≤ maxSeq →
+    |sid| ≤ 7 → |idctx| ≤ 240 → option lengths ≤ 65804 →
+    (isRequest m.code → ∀ r, protectRequest cipher cS m seq = some r → unprotectRequest cipher cR r.1 = .ok m r.2) ∧
+    (¬isRequest m.code → ∀ b s r, protectResponse cipher cS b m s none = some r →
+        unprotectResponse cipher cR (some b) r = .ok (normalize false (piv of s / b) m) b) -/
+theorem unprotect_protect_partial (cipher : Bytes → Bytes → Bytes) (cS cR : Ctx) (m : Msg) (seq : Nat)
+    (hm : Matching cS cR)
+    (hsorted : m.opts.Pairwise (fun a b => a.1 ≤ b.1))
+    (hno : ∀ o ∈ m.opts, o.1 ≠ optOscore)
+    (hseq : seq ≤ maxSeq)
+    (hpiv : (pivBytes seq).length ≤ 5)
+    (hopt : (optEncode ⟨pivBytes seq, cS.idctx, some cS.sid⟩).length ≤ 255)
+    (hplain : decPlain (encPlain m.code (innerOpts true m.opts) m.payload) =
+                some (m.code, innerOpts true m.opts, m.payload)) :
+    ∀ r, protectRequest cipher cS m seq = some r → unprotectRequest cipher cR r.1 = .ok m r.2 := by
+  obtain ⟨h1, h2, h3, h4, h5⟩ := hm
+  have hany : (m.opts.any fun o => decide (o.1 = optOscore)) = false := by
+    rw [List.any_eq_false]; intro o ho; simpa using hno o ho
+  have hs : ¬ seq > maxSeq := by omega
+  intro r hr
+  unfold protectRequest at hr
+  simp only [hany, hs, if_false, Bool.false_eq_true] at hr
+  injection hr with hr
+  subst hr
+  unfold unprotectRequest
+  simp only [oscoreValue_withOscore _ _ (outerOpts_no_oscore m.opts)]
+  simp only [aeadSeal_ne_nil, if_false]
+  rw [option_value_roundtrip _ hpiv hopt]
+  simp only [h1, h2, h3, h4, h5, ne_eq, not_true_eq_false, or_self, if_false, aeadOpen_aeadSeal, hplain]
+  simp only [split_merge_inverse m.opts _ hsorted hno]
+
+/-- libcoap's `oscore_prepare_e_aad` / `oscore_prepare_aad` (M) produce the external_aad and the
+Enc_structure of RFC 8613 §5.4 (S), for every algorithm id (positive or negative), kid and Partial IV. -/
+theorem aad_eq_spec (alg : Int) (kid piv : Bytes) :
+    M.Oscore.prepareEAad alg kid piv = aadArray alg kid piv ∧ M.Oscore.prepareAad (M.Oscore.prepareEAad alg kid piv) = aad alg kid piv := by
+  have e : M.Oscore.prepareEAad alg kid piv = aadArray alg kid piv := by
+    simp only [M.Oscore.prepareEAad, aadArray, M.Oscore.putArray, M.Oscore.putBytes, cborArray, cborBstr, cborUint, (orFirst_eq _).1, (orFirst_eq _).2.1]
+    simp only [putUnsigned_eq, putNumber_eq, List.append_assoc]
+  refine ⟨e, ?_⟩
+  rw [e]
+  simp only [M.Oscore.prepareAad, aad, encStructure, M.Oscore.putArray, M.Oscore.putBytes, M.Oscore.putText, cborArray, cborBstr, cborTstr, (orFirst_eq _).1,
+    (orFirst_eq _).2.1, (orFirst_eq _).2.2.1, labelEncrypt0, List.append_assoc]
+
 end Coap.C14
